@@ -91,7 +91,7 @@ func VerifShadowHistory() {
 	last := make([][]byte, len(names))
 	attempted := make([]bool, len(names))
 	dirty := make([]bool, len(names)) // a failed upload after the last successful one
-	steps := verif.Bound("steps", 3, 4)
+	steps := verif.Bound("steps", 3, 3)
 	for st := 0; st < steps; st++ {
 		i := verif.Choice("name", len(names))
 		switch verif.Choice("op", 3) {
